@@ -120,10 +120,14 @@ struct Fw {
 }
 
 fn gen_fw(rng: &mut Rng) -> Fw {
-    let n = rng.range(0, 6);
+    // 1 % large texts (> 8 KiB: beyond the reader's internal buffer, so that stream faults and
+    // chunk boundaries also land on buffer refills)
+    let large = rng.chance(1, 100);
+    let n = if large { rng.range(60, 400) } else { rng.range(0, 6) };
     let mut atts = vec![];
     if n > 0 {
-        for _ in 0..rng.below(2 * n + 1) {
+        let m = if large { rng.range(1200, 2200) } else { rng.below(2 * n + 1) };
+        for _ in 0..m {
             atts.push((rng.below(n), rng.below(n)));
         }
     }
@@ -375,8 +379,8 @@ impl Property for C13 {
     }
     fn runs(&self, tier: Tier) -> u64 {
         match tier {
-            Tier::Quick => 100_000,
-            Tier::Thorough => 3_000_000,
+            Tier::Quick => 60_000,
+            Tier::Thorough => 1_500_000,
         }
     }
     fn gen(&self, run_seed: u64, _tier: Tier) -> Value {
@@ -419,7 +423,8 @@ impl Property for C13 {
                 let mut prng = Rng::sub(case.plan_seed, "delivery");
                 let mut p = vec![Delivery::Whole];
                 for _ in 0..4 {
-                    p.push(Delivery::Chunked { seed: 1 + (prng.next_u64() >> 20), max_chunk: *prng.pick(&[1usize, 2, 3, 7, 16]), interrupt_pct: *prng.pick(&[0usize, 20, 50]) });
+                    let mc = if len > 1024 { *prng.pick(&[16usize, 100, 4096, 8192, 8193]) } else { *prng.pick(&[1usize, 2, 3, 7, 16]) };
+                    p.push(Delivery::Chunked { seed: 1 + (prng.next_u64() >> 20), max_chunk: mc, interrupt_pct: *prng.pick(&[0usize, 20, 50]) });
                 }
                 let offsets: Vec<usize> = if len <= 256 {
                     (0..=len).collect()
@@ -449,7 +454,8 @@ impl Property for C13 {
             let chunk = |rp: &mut ReadPlan, seed: u64| {
                 if seed != 0 {
                     rp.chunk_seed = seed;
-                    rp.max_chunk = 1 + (seed % 5) as usize;
+                    // small texts: byte-sized chunks; large texts: chunks around the reader's 8 KiB buffer
+                    rp.max_chunk = if len > 1024 { [7usize, 64, 1000, 4096, 8193][(seed % 5) as usize] } else { 1 + (seed % 5) as usize };
                     rp.interrupt_pct = [0, 30][(seed % 2) as usize];
                 }
             };
